@@ -315,4 +315,32 @@ pub(crate) mod verif_sc {
         kani::cover!(has_entry && blocked);
         kani::cover!(!has_entry);
     });
+
+    // equal order values: two slots of each kind sharing ONE (symbolic) order value are both kept and both run exactly once
+    sc_harness!(sc_equal_orders_all_slots_run, 8, {
+        let o: u32 = kani::any();
+        let mut sc = SlotChain::new();
+        sc.add_stat_prepare_slot(Arc::new(RecPrep { order: o, id: 1 }));
+        sc.add_stat_prepare_slot(Arc::new(RecPrep { order: o, id: 2 }));
+        sc.add_rule_check_slot(Arc::new(RecCheck { order: o, id: 1, verdict: 0, wait: 0 }));
+        sc.add_rule_check_slot(Arc::new(RecCheck { order: o, id: 2, verdict: 0, wait: 0 }));
+        sc.add_stat_slot(Arc::new(RecStat { order: o, id: 1 }));
+        sc.add_stat_slot(Arc::new(RecStat { order: o, id: 2 }));
+        assert!(sc.stat_pres.len() == 2 && sc.rule_checks.len() == 2 && sc.stats.len() == 2);
+        log_reset();
+        let r = sc.entry(new_ctx());
+        assert!(r.is_pass());
+        let mut l = unsafe { LOG };
+        assert!(unsafe { LOG_LEN } == 6);
+        let mut seen = [0u8; 4];
+        for _ in 0..6 {
+            let b = (l & 0xff) as u8;
+            l >>= 8;
+            seen[(b >> 4) as usize] |= 1u8 << (b & 0xf);
+        }
+        assert!(seen[1] == 0b110 && seen[2] == 0b110 && seen[3] == 0b110);
+        std::mem::forget(r);
+        kani::cover!(o == 0);
+        kani::cover!(o > 1000);
+    });
 }
